@@ -11,6 +11,7 @@ mod c0607;
 mod c08;
 mod c09;
 mod c10;
+mod c12;
 mod c13;
 mod c14;
 mod c15;
@@ -109,6 +110,7 @@ fn main() {
                 }
                 "C09" => c09::search(seed, full, &rt),
                 "C10" => c10::search(seed, full, &rt),
+                "C12" => c12::search(seed, full, &rt),
                 "C13" => c13::search(seed, full, &rt),
                 "C14" => c14::search(seed, full, &rt),
                 "C15" => c15::search(seed, full, &rt),
@@ -119,6 +121,16 @@ fn main() {
             emit_search(r);
         }
         "probe-empty" => { println!("{:?}", c05::empty_tree(&rt)); }
+        "probe-c12b" => {
+            for cache in [false, true] {
+                let r = rt.block_on(akd::vx_export::c12_overtaken_on_clone::<akd_core::WhatsAppV1Configuration>(cache));
+                match r { Ok(o) => println!("cache={cache} p1={:?} p2={:?} final={} audits_ok={} a_ok={} b_ok={}", o.p1.map(|x| x.0), o.p2.map(|x| x.0), o.final_epoch, o.audits_ok, o.a_ok, o.b_ok), Err(e) => println!("err {e}") }
+            }
+        }
+        "probe-c12" => {
+            println!("{:?}", rt.block_on(akd::vx_export::c12_publish_overtaken::<akd_core::WhatsAppV1Configuration>()).map_err(|e| e.to_string()));
+            println!("{:?}", rt.block_on(akd::vx_export::c12_publish_overtaken::<akd_core::ExperimentalConfiguration<akd_core::ExampleLabel>>()).map_err(|e| e.to_string()));
+        }
         "finding" => {
             let (rep, detail) = match args[1].as_str() {
                 "C08-D4" => c08::finding_d4(&rt),
@@ -138,6 +150,7 @@ fn main() {
                 "c06" | "c07" => c0607::replay(case[0], &case[1..], &rt),
                 "c09" => c09::replay(&case[1..], &rt),
                 "c10" => c10::replay(&case[1..], &rt),
+                "c12" => c12::replay(&case[1..], &rt),
                 "c13" => c13::replay(&case[1..], &rt),
                 "c14" => c14::replay(&case[1..], &rt),
                 "c15" => c15::replay(&case[1..], &rt),
